@@ -53,7 +53,10 @@ ATOM_KINDS = {"reg", "newreg", "explicit", "alias", "imm", "id", "num"}
 
 TIGHT_HAZARDS = ["{ tmp = a ? R1:0; }", "{ tmp = PuV ? R1:0; }", "{ tmp = RsV ? P0:1; }", "{ x = x ? V2:1; }", "{ tmp = a ? R31:3 ; }",
                  "{ tmp = a ? C12:13; }", "{ tmp = (a ? R1:0); }", "{ RddV = R1:0; }", "{ R1:0; }", "{ tmp = a ? R1:0 : 2; }",
-                 "{ if (a) R3:2; }", "{ tmp = a?P3:0; }"]
+                 "{ if (a) R3:2; }", "{ tmp = a?P3:0; }",
+                 # casts to pointer types, keyword and typedef-like spellings (both parsers of the project read the same grammar)
+                 "{ tmp = *(int *) p; }", "{ x = (char *) a; }", "{ p = (void*) 0; }", "{ x = (uint8_t *) a; }", "{ x = (unsigned int *) a; }",
+                 "{ tmp = *(size4u_t*) EA; }", "{ x = (cnt_t) - RsV; }", "{ x = (len_t) * p; }", "{ x = (foo_t *) a; }", "{ x = (long *) a + 1; }"]
 
 
 class EngineG(EngineBase):
